@@ -418,6 +418,8 @@ impl Property for C02 {
                 return o;
             }
         };
+        crate::gens::set_io_style((case_hash(c) % 4) as u8);
+        o.label(format!("io-style/{}", crate::gens::io_style()));
         o.label(format!("target/{:?}", c.target));
         let m = format!("{:?}", c.mutation);
         o.label(format!("mutation/{}", m.split(|ch: char| !ch.is_alphanumeric()).next().unwrap_or("")));
